@@ -99,13 +99,21 @@ func chooseWriterOptions(x *engine.X, schema *parquet.Schema, tmpdir string) *wc
 		c.codecName = codecNames[i]
 		add("codec="+codecNames[i], parquet.Compression(codecs[i]))
 	}
-	switch x.Deviate(3, "opt.dictmax") {
+	switch x.Deviate(5, "opt.dictmax") {
 	case 1:
 		c.dictMax = 1
 		add("dictmax=1", parquet.DictionaryMaxBytes(1))
 	case 2:
 		c.dictMax = 64
 		add("dictmax=64", parquet.DictionaryMaxBytes(64))
+	case 3: // dictionary fallback needs an overflow AND a later page
+		c.dictMax = 1
+		c.pageBuf = 1
+		add("dictmax=1+pagebuf=1", parquet.DictionaryMaxBytes(1), parquet.PageBufferSize(1))
+	case 4:
+		c.dictMax = 64
+		c.pageBuf = 64
+		add("dictmax=64+pagebuf=64", parquet.DictionaryMaxBytes(64), parquet.PageBufferSize(64))
 	}
 	encs := []string{"-", "plain", "dict", "delta", "deltalen", "split"}
 	if i := x.Deviate(len(encs), "opt.enc"); i > 0 {
